@@ -25,11 +25,11 @@ use vengine::{prop_sub, Obs, Property, Tier};
 // named tolerances (all of them are repeated in `assumptions`)
 
 /// iteration budget for fits whose stopping rule can fire (l1 part > 0): the case's `max_iter`
-/// (30 000 in the quick tier, 100 000 in the thorough tier)
-const MAX_ITER_QUICK: u32 = 30_000;
+/// (10 000 in the quick tier, 100 000 in the thorough tier)
+const MAX_ITER_QUICK: u32 = 10_000;
 const MAX_ITER_THOROUGH: u32 = 100_000;
 /// budgets of the two fits used to establish stationarity when the l1 part is zero: RIDGE_ITER and twice that
-const RIDGE_ITER: u32 = 10_000;
+const RIDGE_ITER: u32 = 5_000;
 /// budget of the f32 fits
 const F32_ITER: u32 = 5_000;
 /// float slack of objective comparisons, relative to `objective_scale`
@@ -387,7 +387,7 @@ fn check_enet(c: &EnetCase, obs: &mut Obs) {
         }
     } else {
         // l1 part > 0 and the budget ran out. If the harness' own plain coordinate descent reaches a
-        // gap a thousand times below the requested one in <= 2000 sweeps, the budget of >= 30 000 was
+        // gap a thousand times below the requested one in <= 2000 sweeps, the budget of >= 10 000 was
         // large enough and the solver had to stop.
         if !c.f32 && c.tol >= 1e-8 && yc2 > 0.0 {
             let (wr, sweeps, _) = ref_cd(&pr, b, 2000);
@@ -782,7 +782,7 @@ pub fn property() -> Property {
         rule: "cases = finished (X, y) matrices + estimator configuration. X = (G + k) diag(scale): G gaussian or small-integer lattice, n 6..=60, p 1..=6, n >= p+2, \
                scale_j = 10^(e/2) with e in -6..=6, offset k_j in {exactly centred, raw, +-1, +-100} column scales (at most one +-100), optional constant column (zero or non-zero) and \
                near-collinear pair (elastic net; the pair only with a positive ridge part); y = X w* + b* + sigma noise with row-sparse w*, 1..=3 target columns for the multi-task estimator; \
-               penalty in {0,1e-3,0.1,1,10}, l1_ratio in {0,0.3,0.5,1}, intercept on/off, tolerance in {1e-4,1e-8,1e-12} (f32: {1e-3,1e-4}), max_iterations 30000 (quick) / 100000 (thorough). \
+               penalty in {0,1e-3,0.1,1,10}, l1_ratio in {0,0.3,0.5,1}, intercept on/off, tolerance in {1e-4,1e-8,1e-12} (f32: {1e-3,1e-4}), max_iterations 10000 (quick) / 100000 (thorough). \
                Non-trivial = judged (converged) case with un-centred X and intercept, or >= 1 exactly-zero and >= 1 non-zero coefficient row, or multi-task with >= 2 target columns; \
                for OLS: un-centred X with intercept. distinct = distinct canonical JSON of the case",
         assumptions: vec![
@@ -790,7 +790,7 @@ pub fn property() -> Property {
             format!("objective comparisons carry a float slack of {SLACK_F64:e} (f64) / {SLACK_F32:e} (f32) times the cancellation-free magnitude of the objective"),
             format!("elastic-net fits are judged only when the solver reports convergence (n_steps < max_iterations = {MAX_ITER_QUICK} quick / {MAX_ITER_THOROUGH} thorough; f32: {F32_ITER}); other fits are counted as skipped"),
             format!("when n*penalty*l1_ratio = 0 linfa's duality gap equals the primal value and its stopping rule cannot fire (observation, not judged as a violation: the gap is still an upper bound); such fits are judged when two fits with budgets {RIDGE_ITER} and {} agree to {STATIONARY:e} (scaled by column norms), and then suboptimality must be within float slack", 2 * RIDGE_ITER),
-            "a fit that exhausts its budget of >= 30000 sweeps is a violation only when tolerance >= 1e-8 and the harness' plain coordinate descent reaches a duality gap below 1e-3*tolerance*||y||^2 in fewer than 2000 sweeps".into(),
+            "a fit that exhausts its budget of >= 10000 sweeps is a violation only when tolerance >= 1e-8 and the harness' plain coordinate descent reaches a duality gap below 1e-3*tolerance*||y||^2 in fewer than 2000 sweeps".into(),
             format!("a column counts as centred when |sum_i x_ij| <= {CENTRED:e}*sqrt(n)*||x_j||; joint optimality in (w,b) is enforced for all designs, the failures on designs with a non-centred column and intercept == mean(y) carry the known-finding signature"),
             format!("exact-zero rule: row j must be exactly zero when ||x_j^T(partial residual)|| + margin < n*penalty*l1_ratio*(1-1e-9); margin = sum_{{k>j}} |x_j^T x_k| * ||W_k - W_k(previous sweep)|| + {DRIFT_F64:e}*||x_j||*(cancellation-free residual norm); the previous sweep's iterate is obtained from linfa itself with tolerance 0 and max_iterations = n_steps-1; f64 only"),
             format!("OLS: |x_j^T r| <= {ORTH_EPS}*eps*||x_j||*M and |1^T r| <= {ORTH_EPS}*eps*sqrt(n)*M with M = ||y|| + sum_k ||x_k|| |w_k| + sqrt(n)|b|; SSE slack 1e4*eps*M^2; agreement with the reference solve within {AGREE_EPS}*eps*cond*M where cond is the condition number of the unit-column Gram matrix of [X 1]; designs with cond > {COND_MAX:e} are not judged"),
